@@ -102,6 +102,7 @@ pub fn run(run: &Run) {
         }
     };
     vals.par_iter().for_each(|v| {
+        let _w = crate::watch::enter(&v.show());
         run.eval(1);
         let n = match quiet_catch(AssertUnwindSafe(|| v.build())) {
             Ok(n) => n,
@@ -139,6 +140,7 @@ pub fn run(run: &Run) {
     // probing, i.e. on insertion order - demanding equal rendering SETS would demand more than the property does.)
     let sets: Mutex<HashMap<R, HashMap<R, std::collections::BTreeMap<String, String>>>> = Mutex::new(HashMap::new());
     fam.par_iter().for_each(|r| {
+        let _w = crate::watch::enter(&r.show());
         let v = V::term(r.clone());
         let mut mine = std::collections::BTreeMap::new();
         let make = || r.build();
